@@ -324,6 +324,10 @@ def calcVersion (level : Int) (segments : List Segment) : Out Int := do
     if !over ∧ length ≤ capacity then return version
   return 0
 
+/-- the repaired source retries a payload as ONE byte-mode segment when the kanji-aware mode selection
+(whose cost model rounds per segment) produced segments that fit no version; the pinned source gives up -/
+def NEW_KANJI_BYTE_FALLBACK : Bool := true
+
 /-- Go: `New(data, opts...)` reduced to the options that matter: level and the kanji switch -/
 def new (level : Int) (kanji : Bool) (data : List Nat) : Out QRCode := do
   if !levelIsValid level then Out.err (α := Unit) "qrcode: invalid level"
@@ -331,7 +335,13 @@ def new (level : Int) (kanji : Bool) (data : List Nat) : Out QRCode := do
   let segments ← (if kanji then New.newKanjiSegs [0, modeNumeric, modeAlphanumeric, modeBytes, modeKanji] data.toArray
     else pure (New.newQRSegs ((4 + 14) * 6) ((4 + 13) * 6) ((4 + 16) * 6) [0, modeNumeric, modeAlphanumeric, modeBytes] data.toArray))
   let version ← calcVersion level segments
-  if version = 0 then Out.err (α := Unit) "qrcode: data too large"
-  pure { version, level, mask := Gen.QR.c_maskAuto, segments }
+  if version = 0 ∧ kanji ∧ NEW_KANJI_BYTE_FALLBACK then
+    let segments : List Segment := [{ mode := modeBytes, data := data }]
+    let version ← calcVersion level segments
+    if version = 0 then Out.err (α := Unit) "qrcode: data too large"
+    pure { version, level, mask := Gen.QR.c_maskAuto, segments }
+  else
+    if version = 0 then Out.err (α := Unit) "qrcode: data too large"
+    pure { version, level, mask := Gen.QR.c_maskAuto, segments }
 
 end QRV.Model.QR
